@@ -195,8 +195,10 @@ class SyncedDict(SyncedCollection, MutableMapping):
         """
         if _mapping_resolver.get_type(data) == "MAPPING":
             if self._root is None:
-                self._update(data)
+                # The modification must happen inside the locked section, or a
+                # concurrent writer's load/save cycle can discard it.
                 with self._thread_lock:
+                    self._update(data)
                     self._save()
             else:
                 # A nested collection may be stale: other handles can have
@@ -238,9 +240,11 @@ class SyncedDict(SyncedCollection, MutableMapping):
 
     def clear(self):  # noqa: D102
         if self._root is None:
-            # Clear in place: buffers may hold a reference to the container.
-            self._data.clear()
+            # The modification must happen inside the locked section, or a
+            # concurrent writer's load/save cycle can discard it.
             with self._thread_lock:
+                # Clear in place: buffers may hold a reference to the container.
+                self._data.clear()
                 self._save()
         else:
             # A nested collection may be stale: other handles can have
